@@ -31,15 +31,27 @@ type foConfig struct {
 }
 
 func (c foConfig) String() string {
-	return fmt.Sprintf("%s/%s/su=%v/sr=%v/fh=%v/ms=%v/fut=%v", c.API, c.BackendKind, c.SyncUpdate, c.SyncRead, c.FailHard, c.MaxStaleness, c.FailedUpdateTTL)
+	s := fmt.Sprintf("%s/%s/su=%v/sr=%v/fh=%v/ms=%v/fut=%v", c.API, c.BackendKind, c.SyncUpdate, c.SyncRead, c.FailHard, c.MaxStaleness, c.FailedUpdateTTL)
+	if c.UpdateTTL != 0 {
+		s += fmt.Sprintf("/ut=%v", c.UpdateTTL)
+	}
+	return s
 }
 
 type buildErr struct {
 	Key int
 	N   int64
+	Ctx bool // the builder failed with (a wrapped) context.Canceled, as builders calling remote services do
 }
 
 func (e *buildErr) Error() string { return fmt.Sprintf("build error key=%d n=%d", e.Key, e.N) }
+
+func (e *buildErr) Unwrap() error {
+	if e.Ctx {
+		return context.Canceled
+	}
+	return nil
+}
 
 type backendErr struct {
 	Op  string
@@ -82,8 +94,10 @@ type ttlUpd struct {
 }
 
 type buildOutcome struct {
-	OK   bool
-	TTLs []ttlUpd
+	OK     bool
+	CtxErr bool          // failing outcome wraps context.Canceled
+	Sleep  time.Duration // the builder takes this long (real time) - for UpdateTTL-related windows
+	TTLs   []ttlUpd
 }
 
 type getSpec struct {
@@ -241,14 +255,18 @@ func (r *foRun) beRead(ctx context.Context, key []byte) (interface{}, error) {
 		r.sched.yield(ctx, "be.read.post")
 		return nil, err
 	}
-	v, err := r.be.Read(ctx, key)
+	be := r.be
+	if be == nil { // the run was already judged and released; a straggling background build gets a miss
+		return nil, cache.ErrNotFound
+	}
+	v, err := be.Read(ctx, key)
 	if s, ok := v.(string); ok {
 		ev.Val = s
 	}
 	ev.ErrKind, _, _ = classifyErr(err)
 	if err != nil {
 		ev.Err = err.Error()
-		if sv, _, ok := r.be.Expired(err); ok {
+		if sv, _, ok := be.Expired(err); ok {
 			ev.Val, _ = sv.(string)
 		}
 	}
@@ -279,7 +297,11 @@ func (r *foRun) beWrite(ctx context.Context, key []byte, v interface{}) error {
 		r.sched.yield(ctx, "be.write.post")
 		return err
 	}
-	err := r.be.Write(ctx, key, v)
+	be := r.be
+	if be == nil {
+		return nil
+	}
+	err := be.Write(ctx, key, v)
 	if err != nil {
 		ev.ErrKind, ev.Err = "other", err.Error()
 	}
@@ -548,6 +570,9 @@ func (r *foRun) makeBuilder(getID, key int, callerGID int64) func(ctx context.Co
 			cache.WithTTL(ctx, u.TTL, u.Update)
 			applied += fmt.Sprintf("%d:%v,", int64(u.TTL), u.Update)
 		}
+		if out.Sleep > 0 {
+			time.Sleep(out.Sleep)
+		}
 		if r.holdMax > 0 {
 			time.Sleep(time.Duration(mix64(uint64(n)*77+uint64(r.faultAt+3)) % uint64(r.holdMax+1)))
 		}
@@ -560,7 +585,7 @@ func (r *foRun) makeBuilder(getID, key int, callerGID int64) func(ctx context.Co
 			tok = fmt.Sprintf("k%d/b/%d", key, n)
 			ex.Val = tok
 		} else {
-			err = &buildErr{Key: key, N: n}
+			err = &buildErr{Key: key, N: n, Ctx: out.CtxErr}
 			ex.ErrKind, ex.ErrKey, ex.ErrN = "build", key, n
 		}
 		r.mu.Lock()
